@@ -12,5 +12,4 @@ REPLAYS = VERIF / 'replays'
 CORPUS = VERIF / 'corpus'
 KNOWN_FINDINGS = VERIF / 'known_findings.txt'
 REPO = Path(os.environ.get('VERIF_REPO', '/repo'))
-DRIVER = LEAN / '.lake' / 'build' / 'bin' / 'driver'
 GUARD = 'KOZEA_WEASYPRINT_VERIF'
